@@ -2,6 +2,7 @@
 package main
 
 import (
+	"strconv"
 	"encoding/json"
 	"fmt"
 	"go/ast"
@@ -185,6 +186,14 @@ func (c *Ctx) Fn(spec string) *ssa.Function {
 }
 
 func (c *Ctx) FnOpt(spec string) *ssa.Function {
+	if k := strings.LastIndex(spec, "$"); k > 0 { // closure: parent$N (1-based, source order)
+		parent := c.FnOpt(spec[:k])
+		n, err := strconv.Atoi(spec[k+1:])
+		if parent == nil || err != nil || n < 1 || n > len(parent.AnonFuncs) {
+			return nil
+		}
+		return parent.AnonFuncs[n-1]
+	}
 	i := strings.Index(spec, ":")
 	rel, name := spec[:i], spec[i+1:]
 	p := c.ByPath[modPath+"/"+rel]
